@@ -80,7 +80,13 @@ def seven_bit(rnd):
     text = ''.join(rnd.choice(u'abc \xe9\xfc€中.=') for _ in range(rnd.randint(1, 60)))
     lines = [text[i:i + 30] for i in range(0, len(text), 30)]
     body = ('\r\n'.join(lines) + '\r\n').encode('utf-8')
-    cte = rnd.choice([b'Content-Transfer-Encoding: 8bit\r\n', b'', b'Content-Transfer-Encoding: 8BIT\r\n'])
+    # (a declared transfer encoding says nothing about the bytes that are there: 8-bit content under a "7bit" label is still
+    #  8-bit content)
+    cte = rnd.choice([b'Content-Transfer-Encoding: 8bit\r\n', b'', b'Content-Transfer-Encoding: 8BIT\r\n', b'Content-Transfer-Encoding: 7bit\r\n',
+                      b'Content-Transfer-Encoding: base64\r\n', b'Content-Transfer-Encoding: quoted-printable\r\n',
+                      b'Content-Transfer-Encoding: binary\r\n'])
+    if body.isascii() and cte.split(b': ')[-1].strip() in (b'base64', b'quoted-printable'):
+        cte = b''          # (an ASCII body under such a label would be decoded by the label: nothing to judge)
     hdr = b'Subject: t\r\nMIME-Version: 1.0\r\nContent-Type: text/plain; charset="utf-8"\r\n' + cte + b'\r\n'
     ev = []
     for name, enc in (('base64', encoders.encode_base64), ('qp', encoders.encode_quopri), ('none', None)):
